@@ -454,7 +454,7 @@ impl DocumentInline {
             DocumentInline::Link(link) => GraphInline::Link(
                 if model::is_ref_url(&link.target.url) {
                     // the configured extension is added back when the link is written
-                    link.target.url.trim_end_matches(".md").to_string()
+                    model::strip_md(&link.target.url).to_string()
                 } else {
                     link.target.url.clone()
                 },
